@@ -330,11 +330,14 @@ pub(crate) fn add_str_format_replace<W, R, T>(
 
             let mut ret = FencedString::default();
             let mut prev_end = 0;
-            for m in RE.find_iter(pat.as_str()) {
-                let end = m.start();
-                ret.push(&pat.substring(prev_end, Some(end)));
+            // the regex reports byte offsets: slice the underlying text, not the character table
+            let pat_text = pat.as_str();
+            for m in RE.find_iter(pat_text) {
+                ret.push(&FencedString::from_str(&pat_text[prev_end..m.start()]));
                 let substr = ManagedXValue::new(
-                    XValue::String(Box::new(pat.substring(m.start() + 1, Some(m.end())))),
+                    XValue::String(Box::new(FencedString::from_str(
+                        &pat_text[m.start() + 1..m.end()],
+                    ))),
                     rt.clone(),
                 )?;
                 let replacement = xraise!(ns
@@ -342,9 +345,9 @@ pub(crate) fn add_str_format_replace<W, R, T>(
                     .unwrap_value());
                 let repl_str = to_primitive!(replacement, String);
                 ret.push(repl_str.as_ref());
-                prev_end = end + 2;
+                prev_end = m.end();
             }
-            ret.push(&pat.substring(prev_end, None));
+            ret.push(&FencedString::from_str(&pat_text[prev_end..]));
             Ok(ManagedXValue::new(XValue::String(Box::new(ret)), rt)?.into())
         }),
     )
